@@ -153,12 +153,13 @@ def run_data(desc, ctx):
                 val = rng.choice([gen.fnum(int(x)) if dim == 0 else gen.fnum(x) for x in
                                   (i0_["times"] if dim == 0 else i0_["leadtimes"] if dim == 1 else [l_[0] for l_ in i0_["locs"]])])
                 fld = rng.choice(["obs", "obs", "fcst", "both"])
+                newv = rng.choice([0.0, 0.0, None])        # (None: a slice without any valid case - it holds zero cases)
                 for inp in ds["inputs"]:
                     for k_, c_ in inp["cells"].items():
                         if k_.split("|")[dim] == val:
                             for f_ in (("obs", "fcst") if fld == "both" else (fld,)):
                                 if c_.get(f_) is not None:
-                                    c_[f_] = 0.0
+                                    c_[f_] = newv
         d = os.path.join(ctx.workdir, "d%d" % ci)
         os.makedirs(d, exist_ok=True)
         paths, _ = gen.materialize(ds, d, rng if rng.random() < 0.5 else None)
@@ -219,24 +220,26 @@ def run_data(desc, ctx):
                              len(labels) >= 2 and bool(bcls), {"inputs": gen.ds_summary(ds), "axis": axis, "labels": labels[:6]})
         # csv: counts and descriptors
         for axis in rng.sample(refmodel.ALL_AXES, 5):
-            o = runner.run_cli(paths + ["-m", "mae", "-x", axis, "-agg", "count", "-type", "csv"])
+            cm = rng.choice(["mae", "obs", "fcst"])
+            cfields = fields if cm == "mae" else [(cm,)]
+            o = runner.run_cli(paths + ["-m", cm, "-x", axis, "-agg", "count", "-type", "csv"])
             if o.status != "ok":
                 ctx.violation("csv-failed|%s" % axis, str(o.brief()), case)
                 continue
             h, rows = runner.parse_csv(o.stdout)
             ncol = len(h) - F
-            ref0 = refmodel.slices(ds, 0, fields, axis)
+            ref0 = refmodel.slices(ds, 0, cfields, axis)
             if len(rows) != len(ref0):
                 ctx.violation("csv-row-count|%s" % axis, "%d rows, %d slices" % (len(rows), len(ref0)), case)
                 continue
             for i, row in enumerate(rows):
                 ctx.count("csv_rows")
                 for k in range(F):
-                    n = len(refmodel.slices(ds, k, fields, axis)[i][1])
+                    n = len(refmodel.slices(ds, k, cfields, axis)[i][1])
                     g = row[ncol + k]
                     if not ((n == 0 and g.lower() in ("nan", "0")) or (n > 0 and g == "%g" % n)):
                         if axis != "dayofyear":
-                            ctx.violation("csv-count|%s" % axis, "-x %s -agg count row %d col %d = %s, reference %d" % (axis, i, k, g, n), case)
+                            ctx.violation("csv-count|%s" % axis, "-m %s -x %s -agg count row %d col %d = %s, reference %d" % (cm, axis, i, k, g, n), case)
                 if axis in ("time", "year", "month", "week", "day"):
                     want = refmodel.fmt_time_label(axis, ref0[i][0])
                     if row[0] != want:
